@@ -383,10 +383,63 @@ class ModuleFFI:
                     and n.targets[0].attr in ("restype", "argtypes"):
                 ref = self.fn_ref(n.targets[0].value)
                 if ref:
+                    if ref[1] is None:
+                        continue
                     if n.targets[0].attr == "restype":
                         self.restypes[ref] = pf.src(n.value)
                     else:
                         self.argtypes.add(ref)
+        self._find_table_restypes()
+
+    def _find_table_restypes(self):
+        """for name in TABLE: getattr(h, name).restype = T   (TABLE a literal list/tuple/set of names, or a module-level
+        name bound to one; also dict tables `for name, T in TABLE.items()`)"""
+        for n in ast.walk(self.mod.ast):
+            if not isinstance(n, ast.For):
+                continue
+            it = n.iter
+            var = n.target
+            dict_items = False
+            if isinstance(it, ast.Call) and isinstance(it.func, ast.Attribute) and it.func.attr == "items" \
+                    and isinstance(var, ast.Tuple) and len(var.elts) == 2 and not it.args:
+                it, var, dict_items = it.func.value, var.elts[0], True
+            if not isinstance(var, ast.Name):
+                continue
+            try:
+                tbl = pf.literal(it, self.mod.assigns)
+            except pf.NotLiteral:
+                tbl = None
+            if isinstance(tbl, dict):
+                names = [k for k in tbl if isinstance(k, str)]
+            elif isinstance(tbl, (list, tuple, set, frozenset)):
+                names = [k for k in tbl if isinstance(k, str)]
+            else:
+                # a dict table whose values are ctypes expressions is not a literal: take its string keys
+                names = []
+                src_node = self.mod.assigns.get(it.id) if isinstance(it, ast.Name) else it
+                if isinstance(src_node, ast.Dict):
+                    names = [k.value for k in src_node.keys if isinstance(k, ast.Constant) and isinstance(k.value, str)]
+            if not names:
+                continue
+            for st in ast.walk(n):
+                if isinstance(st, ast.Assign) and len(st.targets) == 1 and isinstance(st.targets[0], ast.Attribute) \
+                        and st.targets[0].attr in ("restype", "argtypes"):
+                    tv = st.targets[0].value
+                    if isinstance(tv, ast.Call) and isinstance(tv.func, ast.Name) and tv.func.id == "getattr" \
+                            and len(tv.args) >= 2 and isinstance(tv.args[0], ast.Name) and tv.args[0].id in self.handles \
+                            and isinstance(tv.args[1], ast.Name) and tv.args[1].id == var.id:
+                        for nm in names:
+                            if st.targets[0].attr == "restype":
+                                txt = pf.src(st.value)
+                                if dict_items and isinstance(st.value, ast.Name):
+                                    dn = self.mod.assigns.get(it.id) if isinstance(it, ast.Name) else it
+                                    if isinstance(dn, ast.Dict):
+                                        for k, v in zip(dn.keys, dn.values):
+                                            if isinstance(k, ast.Constant) and k.value == nm:
+                                                txt = pf.src(v)
+                                self.restypes[(tv.args[0].id, nm)] = txt
+                            else:
+                                self.argtypes.add((tv.args[0].id, nm))
 
     def fn_ref(self, e):
         """h.f / getattr(h, 'f') -> (handle, f) ; getattr(h, <non-literal>) -> (handle, None)"""
